@@ -20,6 +20,7 @@ Sub-spaces (one `sub` value each):
   pygraph grids of at most 12 (quick 8) cells whose periodic axes all have length >= 3: compute_dstatedt on grid
           and on graph agree
 """
+import itertools
 from fractions import Fraction as F
 
 from mc import core, pool, uq, eng
@@ -878,6 +879,16 @@ def _spaces(tier):
                "neighbour query" % N, [dict(g, sub="geom") for g in grids], 4))
     sp.append(("engine: every source cell of every grid {1..%d}^3 x 8: one native Euler step from a one-hot state" % N,
                [dict(g, sub="engine", c=c) for g in grids for c in range(g["w"] * g["h"] * g["d"])], 40))
+    # beyond the small scope: every axis >= 3 and pairwise different lengths somewhere (interior cells exist; a stride
+    # mix-up between w, h and d cannot cancel); all 8 boundary settings, every source cell
+    bigs = [(3, 3, 4), (3, 4, 3), (4, 3, 3), (3, 4, 5)] + ([(5, 4, 3), (4, 5, 3), (5, 3, 4)] if tier == "thorough" else [])
+    bg = [{"w": w, "h": h, "d": d, "per": [int(b) for b in per], "sub": "engine", "c": c}
+          for (w, h, d) in bigs for per in itertools.product((0, 1), repeat=3) for c in range(w * h * d)]
+    sp.append(("engine-big: every source cell of the grids %s x 8 boundary settings: one native Euler step from a one-hot state"
+               % ", ".join("%dx%dx%d" % t for t in bigs), bg, 40))
+    bt = [{"w": w, "h": h, "d": d, "per": [int(b) for b in per], "sub": "traj", "variant": v, "chem": v}
+          for (w, h, d) in bigs[:4] for per in ((0, 0, 0), (1, 1, 1), (1, 0, 1)) for v in (0, 1)]
+    sp.append(("traj-big: grids %s x 3 boundary settings x 2 variants: 3 Euler steps grid vs graph" % ", ".join("%dx%dx%d" % t for t in bigs[:4]), bt, 2))
     sp.append(("graph: all grids {1..%d}^3 x 8 x %d volume/unit variants: grid_to_graph structure" % (N, len(VARIANTS)),
                [dict(g, sub="graph", variant=v) for g in grids for v in range(len(VARIANTS))], 16))
     sp.append(("traj: all grids {1..%d}^3 x 8 x 2 variants (plain; other units + chemostats): 3 Euler steps grid vs graph" % N,
